@@ -42,13 +42,14 @@ inductive UGrant | grant | null | throw
     decision: allocate the doubled node (after `commit_write` on the old one), answer `nullptr`, or throw -/
 def uPrepareWrite (c : Cfg) (qmax : Nat) (t : Th) (n : Nat) : Th × UGrant :=
   let r := qPrepareWrite c t.prod n
-  if r.2 then (t.setProd (fun _ => r.1), .grant)
+  let t0 := t.setProd (fun p => (qPrepareWrite c p n).1)      -- the reservation attempt on the producer's node
+  if r.2 then (t0, .grant)
   else
     match Uspsc.growDecision r.1.cap n qmax with
-    | .throw => (t.setProd (fun _ => r.1), .throw)
-    | .null => (t.setProd (fun _ => r.1), .null)
+    | .throw => (t0, .throw)
+    | .null => (t0, .null)
     | .alloc cap' =>
-      let t1 := t.setProd (fun _ => (absApi c.qp r.1 .commitWrite).1)
+      let t1 := t0.setProd (fun p => (absApi c.qp p .commitWrite).1)
       -- (the reservation on the fresh node finds `n ≤ cap'` free bytes without a reload: it changes nothing)
       ({ t1 with more := t1.more ++ [newNode c cap'] }, .grant)
 
